@@ -19,7 +19,7 @@ CHUNK = 50
 PROBES = ['same_object_abandoned_in_logs', 'tag_straddles_buffer_boundary', 'large_capture', 'special_record', 'partial_tag_prefix_before_tag', 'earlier_dump_other_parser_object', 'multi_chunk', 'empty_chunk', 'cut_inside_window', 'cut_inside_lookup', 'decoy_tag_in_stackshot', 'gap_before_event_tag',
           'header_plist_unaligned', 'two_kext_blocks', 'two_dyld_blocks', 'two_code_blocks', 'two_log_blocks', 'unpadded_last_block',
           'log_extends_tables', 'log_without_pid', 'strings_block_before_logs', 'xml_plists', 'no_blocks', 'unknown_block',
-          'log_with_tai', 'cli_run', 'same_record_on_both_sides_of_chunk_boundary', 'two_listings_of_one_object_under_way', 'two_listings_read_in_turns', 'log_blocks_share_stored_objects', 'log_argument_not_available', 'log_message_several_segments']
+          'log_with_tai', 'cli_run', 'same_object_read_an_earlier_dump_to_its_end', 'code_block_cut_mid_line', 'block_padding_not_zero', 'same_record_on_both_sides_of_chunk_boundary', 'two_listings_of_one_object_under_way', 'two_listings_read_in_turns', 'log_blocks_share_stored_objects', 'log_argument_not_available', 'log_message_several_segments']
 RULE = ('one run = one simulated v3 dump (1..3 SimKernel threads, 0..60 records in 1..5 chunks, thread map with duplicate keys, '
         'seeded metadata/log blocks) parsed by the real KdBufParser and by PyKdebugParser.kevents/os_log_events; non-trivial = '
         '>= 2 event chunks or >= 2 blocks of one list-valued kind or >= 1 log that extends the tables; distinct = distinct '
@@ -84,7 +84,10 @@ def generate(rng, index, tier):
         # the SAME KdBufParser object parsed another v3 dump before, and that listing was abandoned somewhere (possibly
         # in the middle of its log records)
         scn['same_object_earlier'] = {'writer': worlds.gen_writer(rng, 3, threads, 3, logs=True), 'after': rng.randint(0, 12)}
-        if rng.chance(0.4):
+        if rng.chance(0.25):
+            # ... or read to its very end: the object then describes that earlier dump (its sections, its header) until the next
+            scn['same_object_earlier'] = {'writer': worlds.gen_writer(rng, 3, threads, 3, logs=True), 'after': 10 ** 6, 'complete': True}
+        elif rng.chance(0.4):
             scn['same_object_earlier'].update({'overlap': True, 'after': rng.randint(1, 2)})
             if rng.chance(0.5):
                 scn['same_object_earlier']['turns'] = [rng.randrange(2) for _ in range(rng.randint(4, 40))]
@@ -215,6 +218,10 @@ def execute(scn):
         bump('probe:no_blocks')
     if 'unknown' in kinds:
         bump('probe:unknown_block')
+    if any(b['kind'] == 'codes' and b['text'] and not b['text'].endswith('\n') for b in blocks[:-1]):
+        bump('probe:code_block_cut_mid_line')
+    if w.get('padbyte') not in (None, '00') and any(len(worlds.block_payload(b, w.get('plist_fmt', 'binary'))) % 8 for b in blocks):
+        bump('probe:block_padding_not_zero')
     if any(b.get('share') and b['kind'] == 'logs' and len(b['payload']['Events']) >= 2 for b in blocks) and w.get('plist_fmt', 'binary') == 'binary':
         bump('probe:log_blocks_share_stored_objects')
     viols = []
@@ -253,6 +260,8 @@ def execute(scn):
                     if x is None:
                         break
                     seen_logs += 1 if common.is_log(x) else 0
+                if so.get('complete'):
+                    bump('probe:same_object_read_an_earlier_dump_to_its_end')
                 if seen_logs:
                     bump('probe:same_object_abandoned_in_logs')
                 bump('fault:abandon')
